@@ -152,6 +152,15 @@ pub open spec fn temp_name() -> Seq<u8> {
     seq![0x2eu8, 0x6b, 0x69, 0x73, 0x6d, 0x65, 0x74, 0x5f, 0x74, 0x65, 0x6d, 0x70]
 }
 
+pub proof fn lemma_atime_only_trans(a: World, b: World, c: World)
+    requires
+        b.atime_only(a),
+        c.atime_only(b),
+    ensures
+        c.atime_only(a),
+{
+}
+
 /// What a directory listing looks like (assumption about readdir): readable items carry the name
 /// of a distinct existing child; `None` stands for an item the OS failed to return.
 pub open spec fn listing_of(l: Seq<Option<Seq<u8>>>, w: World, dir: PathV) -> bool {
@@ -288,6 +297,13 @@ impl World {
         &&& self.files == old.files
         &&& self.dirs == old.dirs
         &&& self.inodes =~= old.inodes.insert(ino, new_inode)
+    }
+
+    /// C15: what a lookup may change: no link, no directory, and of each inode at most the access time.
+    pub open spec fn atime_only(self, old: World) -> bool {
+        &&& self.files == old.files
+        &&& self.dirs == old.dirs
+        &&& forall|i: InodeId| #[trigger] old.inodes.contains_key(i) ==> self.inodes.contains_key(i) && self.inodes[i] == (Inode { atime: self.inodes[i].atime, ..old.inodes[i] })
     }
 
     pub open spec fn same_fs(self, old: World) -> bool {
